@@ -173,6 +173,30 @@ example : renderSpec ⟨some "PEO", some 12, none, some 7⟩ = "PEO#12-#7" ∧
 /-- decimal numerals are read back -/
 theorem C18_spec_numbers (n : Nat) : readNat (showNat n) = some n := readNat_showNat n
 
+/-! ### `-start` -/
+
+/-- `-start` selects the stated node: for every list of specifications in which a molecule index and a
+molecule name, when both are written, agree (the index-th molecule carries the name), an accepted list gives
+exactly the start dictionary of the specification side — for each molecule, the LAST specification that
+addresses it (index as written, name as written) selects the FIRST residue with the residue name / id
+written; molecules nobody addresses have no start.
+MISSING for the full statement: with an index AND a different name the code silently follows the index
+(shape `start-name-index-mismatch-accepted`, example below). -/
+theorem C18_start_select_partial (mols : List Mol) (specs : List Spec) (st : List (Option Nat))
+    (hcons : ∀ sp ∈ specs, ∀ i n, sp.molIdx = some i → sp.molname = some n → (mols[i]?.map (·.name)) = some n)
+    (h : findStart mols specs = .ok st) : st = specStart mols specs :=
+  start_exact mols specs st hcons h
+
+example :
+    (findStart exampleMols [⟨some "A", none, none, some 2⟩, ⟨none, some 0, some "RA", none⟩]).toOption =
+      some [some 0, some 1, none, none, none] ∧
+    specStart exampleMols [⟨some "A", none, none, some 2⟩, ⟨none, some 0, some "RA", none⟩] =
+      [some 0, some 1, none, none, none] ∧
+    -- the excluded shape: `L#0-RA#2` — molecule 0 is an `A`
+    (findStart exampleMols [⟨some "L", some 0, some "RA", some 2⟩]).toOption = some [some 1, none, none, none, none] ∧
+    specStart exampleMols [⟨some "L", some 0, some "RA", some 2⟩] = [none, none, none, none, none] := by
+  decide
+
 /-! ### `-split` -/
 
 /-- No atom is lost and none duplicated: for every molecule, every list of split definitions that is
